@@ -5,8 +5,9 @@ generator -> the package's own core.cattrs_converter on documents derived from t
 compared with Model/ModelGen.gen_class + Model/Converter.run_ops; extracted dataclass fields / Meta dicts compared
 with gen_class.
 
-case = {"schemas": [{"id", "name", "props": [{"name", "required", "nullable", "schema"}]}], "docs": [[schema id, doc]]}
-property schema: ["str", fmt|null] "int" "num" "bool" ["enum",[..]] ["arr", s] ["ref", id] ["self", id]
+case = {"schemas": [{"id", "name", "props": [{"name", "required", "nullable", "schema"}]} | {"id", "name", "map": s}],
+        "docs": [[schema id, doc]]}      ("map": a named schema with only additionalProperties -> wrapper class)
+property schema: ["str", fmt|null] "int" "num" "bool" ["enum",[..]] ["arr", s] ["ref", id] ["self", id] ["map", s]
 documents / values: tagged as in prop_C16.
 """
 from __future__ import annotations
@@ -57,6 +58,11 @@ def gen_pschema(rng, sid: int, nsch: int, allow_arr=True) -> Any:
         return "bool"
     if r < 0.76:
         return ["enum", rng.sample(["a", "b", "k-2", "UPPER", "x y", "1"], rng.randint(1, 3))]
+    if r < 0.82 and allow_arr and rng.random() < 0.5:
+        v = rng.choice(["int", ["str", None], ["str", "date-time"], "bool"])
+        if sid + 1 < nsch and rng.random() < 0.5:
+            v = ["ref", rng.randrange(sid + 1, nsch)]
+        return ["map", v]
     if r < 0.88 and allow_arr:
         if rng.random() < 0.12:
             return ["arr", ["self", sid]]
@@ -66,11 +72,46 @@ def gen_pschema(rng, sid: int, nsch: int, allow_arr=True) -> Any:
     return "int"
 
 
+COLLIDE = [["address-line", "address_line", "addressLine", "address-line-2", "address_line_2", "address-line-3", "address_line_3"],
+           ["userId", "user_id", "user-id", "UserId", "user_id_2", "user-id-2", "userId2", "user_id_3"],
+           ["x", "X", "x_2", "x-2", "X_2", "x_3"]]
+RENAMED = ["slotCode", "class", "max-load", "lastChecked", "type", "from", "isOK", "kebab-case-name", "PascalCaseName", "id"]
+
+
+def gen_map_case(rng) -> dict:
+    """a model with renamed fields that is reachable ONLY as the value of an additionalProperties map (inline map
+    property and/or a named map schema); documents only for the roots, so nothing else registers its hooks first"""
+    value = {"id": 1, "name": "M1", "props": [
+        {"name": nm, "required": rng.random() < 0.4, "nullable": False,
+         "schema": rng.choice(["int", "num", "bool", ["str", None], ["str", "date-time"], ["str", "date"]])}
+        for nm in rng.sample(RENAMED, rng.randint(2, 5))]}
+    named = rng.random() < 0.5
+    root_props = [{"name": rng.choice(["warehouseName", "name", "x"]), "required": True, "nullable": False, "schema": ["str", None]},
+                  {"name": rng.choice(["slots", "by-code", "index"]), "required": rng.random() < 0.5, "nullable": False,
+                   "schema": ["ref", 2] if named else ["map", ["ref", 1]]}]
+    schemas = [{"id": 0, "name": "M0", "props": root_props}, value]
+    roots = [0]
+    if named:
+        schemas.append({"id": 2, "name": "M2", "map": ["ref", 1]})
+        roots.append(2)
+    docs = []
+    for _ in range(rng.randint(2, 4)):
+        sid = rng.choice(roots)
+        docs.append([sid, gen_doc_schema(rng, schemas, sid, 3, z_ok=False)])
+    return {"schemas": schemas, "docs": docs}
+
+
 def gen_case(rng, focus: str | None = None) -> dict:
+    if focus == "maponly":
+        return gen_map_case(rng)
     nsch = rng.randint(1, 3)
     schemas = []
     for sid in range(nsch):
         names = rng.sample(PROPS, rng.randint(1, 6))
+        if rng.random() < 0.35:
+            # property names that sanitise to the same identifier, next to names that ARE that identifier + _2 / _3
+            grp = rng.choice(COLLIDE)
+            names = rng.sample(grp, rng.randint(3, min(5, len(grp)))) + [x for x in names[:2] if x not in grp]
         props = []
         for nm in names:
             ps = gen_pschema(rng, sid, nsch)
@@ -78,6 +119,18 @@ def gen_case(rng, focus: str | None = None) -> dict:
                 while uses(ps, ("uuid", "time")) or uses_self(ps):
                     ps = gen_pschema(rng, sid, nsch)
             props.append({"name": nm, "required": rng.random() < 0.4, "nullable": rng.random() < 0.15, "schema": ps})
+        # Inline enums are promoted to a class named <Schema><SanitizedProp>; two enum properties whose names sanitise
+        # to the same class name silently share the FIRST one's Enum class (conforming values of the other are then
+        # rejected — a defect of schema promotion, reported as F03d / C02 territory, not modelled here): keep one.
+        seen_enum_classes: set[str] = set()
+        for p in props:
+            promoted = isinstance(p["schema"], list) and (p["schema"][0] in ("enum", "map")
+                                                          or (p["schema"][0] == "ref" and p["nullable"]))
+            if promoted:          # inline enums, inline maps and nullable $refs are all promoted under that name
+                cn = enum_class_name(p["name"])
+                if cn in seen_enum_classes:
+                    p["schema"], p["nullable"] = "int", False
+                seen_enum_classes.add(cn)
         schemas.append({"id": sid, "name": f"M{sid}", "props": props})
     docs = []
     for _ in range(rng.randint(3, 6)):
@@ -86,11 +139,23 @@ def gen_case(rng, focus: str | None = None) -> dict:
     return {"schemas": schemas, "docs": docs}
 
 
+def gen_doc_schema(rng, schemas, sid, depth, z_ok) -> Any:
+    s = schemas[sid]
+    if "map" in s:
+        return gen_doc_val(rng, schemas, ["map", s["map"]], depth, z_ok)
+    return gen_doc_obj(rng, schemas, sid, depth, z_ok)
+
+
+def enum_class_name(prop: str) -> str:
+    from pyopenapi_gen.core.utils import NameSanitizer
+    return NameSanitizer.sanitize_class_name(prop)
+
+
 def uses(ps, fmts) -> bool:
     if isinstance(ps, list):
         if ps[0] == "str":
             return ps[1] in fmts
-        if ps[0] == "arr":
+        if ps[0] in ("arr", "map"):
             return uses(ps[1], fmts)
     return False
 
@@ -125,7 +190,10 @@ def gen_doc_val(rng, schemas, ps, depth, z_ok) -> Any:
     if k == "arr":
         n = rng.randint(0, 2) if depth > 0 else 0
         return ["l", [gen_doc_val(rng, schemas, ps[1], depth - 1, z_ok) for _ in range(n)]]
-    return gen_doc_obj(rng, schemas, ps[1], depth - 1, z_ok)
+    if k == "map":
+        ks = rng.sample(["k", "a-1", "slotA", "id", "x y", ""], rng.randint(0, 2) if depth > 0 else 0)
+        return ["m", [[kk, gen_doc_val(rng, schemas, ps[1], depth - 1, z_ok)] for kk in ks]]
+    return gen_doc_schema(rng, schemas, ps[1], depth - 1, z_ok)
 
 
 def gen_doc_obj(rng, schemas, sid, depth, z_ok) -> Any:
@@ -138,7 +206,8 @@ def gen_doc_obj(rng, schemas, sid, depth, z_ok) -> Any:
             continue
         if not required_chain_ok(p, depth):
             if p["required"]:
-                kvs.append([p["name"], ["l", []] if p["schema"][0] == "arr" else gen_doc_val(rng, schemas, p["schema"], 0, z_ok)])
+                kvs.append([p["name"], ["l", []] if p["schema"][0] == "arr" else
+                            (["m", []] if p["schema"][0] == "map" else gen_doc_val(rng, schemas, p["schema"], 0, z_ok))])
             continue
         kvs.append([p["name"], gen_doc_val(rng, schemas, p["schema"], depth, z_ok)])
     rng.shuffle(kvs)
@@ -146,7 +215,7 @@ def gen_doc_obj(rng, schemas, sid, depth, z_ok) -> Any:
 
 
 def required_chain_ok(p, depth) -> bool:
-    return depth > 0 or not (isinstance(p["schema"], list) and p["schema"][0] in ("ref", "self"))
+    return depth > 0 or not (isinstance(p["schema"], list) and p["schema"][0] in ("ref", "self", "map"))
 
 
 def to_openapi(case: dict) -> dict:
@@ -164,9 +233,16 @@ def to_openapi(case: dict) -> dict:
             return {"type": "string", "enum": list(ps[1])}
         if k == "arr":
             return {"type": "array", "items": conv(ps[1], own)}
+        if k == "map":
+            return {"type": "object", "additionalProperties": conv(ps[1], own)}
         return {"$ref": f"#/components/schemas/M{ps[1]}"}
     schemas, paths = {}, {}
     for s in case["schemas"]:
+        paths[f"/m{s['id']}"] = {"get": {"operationId": f"getM{s['id']}", "responses": {"200": {
+            "description": "ok", "content": {"application/json": {"schema": {"$ref": f"#/components/schemas/{s['name']}"}}}}}}}
+        if "map" in s:
+            schemas[s["name"]] = {"type": "object", "additionalProperties": conv(s["map"], s["id"])}
+            continue
         props = {}
         for p in s["props"]:
             d = conv(p["schema"], s["id"])
@@ -193,7 +269,11 @@ def main(arg):
     cc = importlib.import_module(arg["package"] + ".core.cattrs_converter")
     names = arg["names"]                       # schema id -> class name
     classes = {int(i): getattr(M, n) for i, n in names.items()}
-    rev = {c: i for i, c in classes.items()}
+    maps = set(arg["map_ids"])
+
+    def is_wrapper(t):
+        return isinstance(t, type) and dataclasses.is_dataclass(t) and [f.name for f in dataclasses.fields(t)] == ["_data"]
+    rev = {c: i for i, c in classes.items() if i not in maps}
     byname = {c.__name__: i for i, c in classes.items()}
 
     def ty(t):
@@ -221,6 +301,12 @@ def main(arg):
         if o is list and len(a) == 1: return ["list", ty(a[0])]
         if o is dict and len(a) == 2 and a[0] is str: return ["dict", ty(a[1])]
         if isinstance(t, type) and t in rev: return ["data", rev[t]]
+        if is_wrapper(t):
+            dt = dataclasses.fields(t)[0].type
+            da = typing.get_args(dt)
+            if typing.get_origin(dt) is dict and len(da) == 2 and da[0] is str and da[1] is not typing.Any:
+                return ["wrap", ty(da[1])]
+            return ["unknown", "untyped wrapper " + repr(dt)]
         if isinstance(t, type) and issubclass(t, enum.Enum): return ["enum", [m.value for m in t]]
         return ["unknown", repr(t)]
 
@@ -237,6 +323,7 @@ def main(arg):
         if isinstance(o, date): return ["d", o.isoformat()]
         if isinstance(o, list): return ["l", [canon(x) for x in o]]
         if isinstance(o, dict): return ["m", [[k, canon(x)] for k, x in o.items()]]
+        if is_wrapper(type(o)): return ["W", [[k, canon(x)] for k, x in o._data.items()]]
         if dataclasses.is_dataclass(o) and type(o) in rev:
             return ["D", rev[type(o)], [[f.name, canon(getattr(o, f.name))] for f in dataclasses.fields(o)]]
         return ["unknown", repr(o)[:80]]
@@ -251,6 +338,8 @@ def main(arg):
 
     out_classes = []
     for i in sorted(classes):
+        if i in maps:
+            continue
         c = classes[i]
         fs = []
         for f in dataclasses.fields(c):
@@ -276,7 +365,7 @@ def main(arg):
             inst, ob = None, ["ValueError", str(e)[:300]]
         except BaseException as e:
             inst, ob = None, ["Other", type(e).__name__ + ": " + str(e)[:200]]
-        ops.append({"op": "structure", "ty": ["data", sid], "doc": doc, "obs": ob})
+        ops.append({"op": "structure", "ty": ty(classes[sid]), "doc": doc, "obs": ob})
         if ob[0] == "ok":
             try:
                 ob2 = ["ok", canon(cc.unstructure_to_dict(inst))]
@@ -356,7 +445,7 @@ def oracle(case: dict, res: dict) -> list[str]:
 
 
 # ================================================================== Coq printers
-def c_ps(ps) -> str:
+def c_ps(ps, maps=None) -> str:
     if ps == "int":
         return "PInt"
     if ps == "num":
@@ -369,21 +458,25 @@ def c_ps(ps) -> str:
     if k == "enum":
         return f"(PEnum {clist(cstr(v) for v in ps[1])})"
     if k == "arr":
-        return f"(PArr {c_ps(ps[1])})"
+        return f"(PArr {c_ps(ps[1], maps)})"
+    if k == "map":
+        return f"(PMap {c_ps(ps[1], maps)})"
+    if k == "ref" and ps[1] in (maps or {}):
+        return f"(PMap {c_ps(maps[ps[1]], maps)})"        # $ref to a named map schema: the same wrapper shape
     return f"({'PRef' if k == 'ref' else 'PSelf'} {ps[1]})"
 
 
-def c_schema(s: dict) -> str:
+def c_schema(s: dict, maps=None) -> str:
     ps = clist(f"{{| p_name := {cstr(p['name'])}; p_required := {'true' if p['required'] else 'false'}; "
-               f"p_nullable := {'true' if p['nullable'] else 'false'}; p_schema := {c_ps(p['schema'])} |}}" for p in s["props"])
+               f"p_nullable := {'true' if p['nullable'] else 'false'}; p_schema := {c_ps(p['schema'], maps)} |}}" for p in s["props"])
     return f"{{| s_id := {s['id']}; s_props := {ps} |}}"
 
 
 def c_ty_ext(t) -> str:
     if isinstance(t, list) and t[0] == "enum":
         return f"(TEnum {clist(cstr(v) for v in t[1])})"
-    if isinstance(t, list) and t[0] in ("list", "dict", "opt"):
-        return f"({ {'list': 'TList', 'dict': 'TDict', 'opt': 'TOpt'}[t[0]] } {c_ty_ext(t[1])})"
+    if isinstance(t, list) and t[0] in ("list", "dict", "opt", "wrap"):
+        return f"({ {'list': 'TList', 'dict': 'TDict', 'opt': 'TOpt', 'wrap': 'TWrap'}[t[0]] } {c_ty_ext(t[1])})"
     return c_ty(t)
 
 
@@ -403,10 +496,11 @@ def c_case(case: dict, res: dict, san: dict[str, str]) -> str:
             ob = o["obs"] if o["obs"][0] != "ok" or is_json(o["obs"][1]) else ["Other", "non-JSON"]
             obs.append(f"(ObsJ {c_outcome(ob, c_json)})")
         else:
-            ops.append(f"(OpStructure {c_ty(o['ty'])} {c_json(o['doc'])})")
+            ops.append(f"(OpStructure {c_ty_ext(o['ty'])} {c_json(o['doc'])})")
             obs.append(f"(ObsV {c_outcome(o['obs'], c_val)})")
     santab = clist(cpair(cstr(a), cstr(b)) for a, b in sorted(san.items()))
-    return (f"(({tables_for(res['ops'])}, {santab}, {clist(c_schema(s) for s in case['schemas'])}, {clist(ops)}), "
+    maps = {s["id"]: s["map"] for s in case["schemas"] if "map" in s}
+    return (f"(({tables_for(res['ops'])}, {santab}, {clist(c_schema(s, maps) for s in case['schemas'] if 'map' not in s)}, {clist(ops)}), "
             f"({clist(c_cls_ext(c) for c in res['classes'])}, {clist(obs)}))")
 
 
@@ -426,7 +520,7 @@ def finish_case(case: dict, g) -> dict:
         if not g.ok:
             return {"input": case, "skipped": f"generator failed: {g.error}"}
         r = pipeline.drive(g, DRIVER, {"package": g.package, "names": {str(s["id"]): s["name"] for s in case["schemas"]},
-                                       "docs": case["docs"]})
+                                       "map_ids": [s["id"] for s in case["schemas"] if "map" in s], "docs": case["docs"]})
     finally:
         g.cleanup()
     if not r["ok"]:
@@ -434,7 +528,7 @@ def finish_case(case: dict, g) -> dict:
     res = r["result"]
     if has_unknown(res):
         return {"input": case, "skipped": "construct outside the modelled fragment: " + json.dumps(find_unknown(res))[:300]}
-    san = {p["name"]: NameSanitizer.sanitize_method_name(p["name"]) for s in case["schemas"] for p in s["props"]}
+    san = {p["name"]: NameSanitizer.sanitize_method_name(p["name"]) for s in case["schemas"] for p in s.get("props", [])}
     try:
         coq = c_case(case, res, san)
     except NotModelled as e:
@@ -457,6 +551,8 @@ def main(chk: Check, replay: dict | None = None) -> int:
     n = 400 if chk.thorough else 70
     for i in range(n):
         inputs.append(gen_case(rng, focus="nofindings" if i % 2 == 0 else None))
+    for i in range(n // 4):
+        inputs.append(gen_case(rng, focus="maponly"))
     with ThreadPoolExecutor(max_workers=6) as ex:
         futs = [ex.submit(finish_case, c, start_case(c)) for c in inputs]
         results = [f.result() for f in futs]
@@ -483,8 +579,12 @@ def main(chk: Check, replay: dict | None = None) -> int:
             if o["op"] == "structure":
                 dist["structure_" + o["obs"][0]] += 1
         for s in c["input"]["schemas"]:
-            for p in s["props"]:
+            if "map" in s:
+                dist["named_map_schemas"] = dist.get("named_map_schemas", 0) + 1
+            for p in s.get("props", []):
                 dist["properties"] += 1
+                if isinstance(p["schema"], list) and p["schema"][0] == "map":
+                    dist["inline_map_properties"] = dist.get("inline_map_properties", 0) + 1
                 ps = p["schema"][1] if isinstance(p["schema"], list) and p["schema"][0] == "arr" else p["schema"]
                 if isinstance(ps, list) and ps[0] == "str":
                     dist["formats"][str(ps[1])] = dist["formats"].get(str(ps[1]), 0) + 1
